@@ -83,3 +83,116 @@ fn native_enum_push_chunk_covers_exactly_the_range() {
     }
     assert!(cases > 400);
 }
+
+/// every op list made of the base node's compressed head cut at any subset of its inner boundaries
+/// (KeepChunks), with the uncompressed tail as Inserts, and an Update replacing a kept separator
+#[cfg(test)]
+fn native_branch_op_lists(base: &BaseBranch) -> Vec<Vec<BranchOp>> {
+    let pc = base.node.prefix_compressed() as usize;
+    let n = base.node.n() as usize;
+    let chunk = |s: usize, e: usize| {
+        BranchOp::KeepChunk(KeepChunk {
+            start: s,
+            end: e,
+            sum_separator_lengths: node::uncompressed_separator_range_size(
+                base.node.prefix_len() as usize,
+                base.node.separator_range_len(s, e),
+                e - s,
+                separator_len(&base.key(s)),
+            ),
+        })
+    };
+    let mut lists = Vec::new();
+    for cuts in 0u32..(1 << (pc - 1)) {
+        let mut bounds = vec![0usize];
+        for c in 0..pc - 1 {
+            if cuts & (1 << c) != 0 { bounds.push(c + 1); }
+        }
+        bounds.push(pc);
+        for upd in 0..=bounds.len() - 1 {
+            let mut ops = Vec::new();
+            for s in 0..bounds.len() - 1 {
+                if upd == s + 1 && bounds[s + 1] - bounds[s] >= 2 {
+                    // the first separator of this segment gets a new page number
+                    ops.push(BranchOp::Update(bounds[s], PageNumber(900 + s as u32)));
+                    ops.push(chunk(bounds[s] + 1, bounds[s + 1]));
+                } else {
+                    ops.push(chunk(bounds[s], bounds[s + 1]));
+                }
+            }
+            for i in pc..n {
+                let (k, pn) = base.key_value(i);
+                ops.push(BranchOp::Insert(k, pn));
+            }
+            lists.push(ops);
+        }
+    }
+    lists
+}
+
+#[cfg(test)]
+fn native_clone_branch_ops(ops: &[BranchOp]) -> Vec<BranchOp> {
+    ops.iter()
+        .map(|o| match o {
+            BranchOp::Insert(k, pn) => BranchOp::Insert(*k, *pn),
+            BranchOp::Update(p, pn) => BranchOp::Update(*p, *pn),
+            BranchOp::KeepChunk(c) => BranchOp::KeepChunk(*c),
+        })
+        .collect()
+}
+
+/// Bounded native enumeration (not a proof): on real branch nodes of 5 and 6 separators (fully
+/// compressed, and with an uncompressed tail), over every op list of the shape above, each rewrite
+/// keeps the sequence of (separator, page number) entries the list stands for:
+///  * BranchOpsTracker::replace_with_insert at every op (the contract V19 assumes),
+///  * BranchOpsTracker::prepare_merge_ops,
+///  * BranchOpsTracker::extract_insert_from_keep_chunk at every chunk,
+///  * BranchOpsTracker::try_split_keep_chunk at every chunk for several targets.
+#[cfg(test)]
+#[test]
+fn native_enum_branch_op_rewrites_preserve_view() {
+    let mut cases = 0;
+    for (n, pc) in [(5usize, 5usize), (6, 4), (6, 6), (4, 2)] {
+        let base = native_base(n, pc);
+        for ops in native_branch_op_lists(&base) {
+            let want = native_expand(&base, &ops);
+            let fresh = |ops: &[BranchOp]| {
+                let mut t = BranchOpsTracker::new();
+                t.ops = native_clone_branch_ops(ops);
+                t
+            };
+            {
+                let mut t = fresh(&ops);
+                t.prepare_merge_ops(Some(&base));
+                assert!(t.ops.iter().all(|o| matches!(o, BranchOp::Insert(..))), "prepare_merge_ops left a non-Insert op");
+                assert!(native_expand(&base, &t.ops) == want, "prepare_merge_ops changed the entries (n={}, compressed={})", n, pc);
+                cases += 1;
+            }
+            for idx in 0..ops.len() {
+                {
+                    let mut t = fresh(&ops);
+                    let k = t.replace_with_insert(Some(&base), idx);
+                    assert!(native_expand(&base, &t.ops) == want, "replace_with_insert({}) changed the entries (n={}, compressed={})", idx, n, pc);
+                    assert!(t.ops[idx..idx + k].iter().all(|o| matches!(o, BranchOp::Insert(..))));
+                    cases += 1;
+                }
+                if let BranchOp::KeepChunk(_) = ops[idx] {
+                    {
+                        let mut t = fresh(&ops);
+                        t.extract_insert_from_keep_chunk(&base, idx);
+                        assert!(native_expand(&base, &t.ops) == want, "extract_insert_from_keep_chunk({}) changed the entries (n={}, compressed={})", idx, n, pc);
+                        cases += 1;
+                    }
+                    for target in [1usize, 16, 40, 80, 4000] {
+                        let mut t = fresh(&ops);
+                        let gauge = BranchGauge::default();
+                        t.try_split_keep_chunk(&base, &gauge, idx, target, BRANCH_NODE_BODY_SIZE);
+                        assert!(native_expand(&base, &t.ops) == want, "try_split_keep_chunk({}, target {}) changed the entries (n={}, compressed={})", idx, target, n, pc);
+                        cases += 1;
+                    }
+                }
+            }
+        }
+    }
+    assert!(cases > 1000);
+}
